@@ -25,6 +25,10 @@ def run(ctx) -> None:
     ctx.guard("C18.group-integrity", grouping)
     ctx.guard("C18.one-permutation", sorting)
     ctx.guard("C18.mode", optimize)
+    # the automatic choice asks the labware whether it is a trough
+    from . import c08
+
+    ctx.reuse("C18.mode", c08.trough_predicate)
 
 
 def _pb():
